@@ -221,14 +221,14 @@ Section KeepClones.
 End KeepClones.
 
 (* remove(), every combination of keep_children / with_clones *)
-Theorem WFw_op_remove_full w ti n keep wc : WFw w -> WFw (snd (op_remove w ti n keep wc)).
+Theorem WFx_op_remove_full w ti n keep wc : WFw w -> WFx w (snd (op_remove w ti n keep wc)).
 Proof.
-  intros H. destruct keep; [|now apply WFw_op_remove].
-  unfold op_remove. destruct (get_tree w ti) as [t|] eqn:Gt; [|exact H].
-  destruct (did_of n (forest_of t)) as [d|] eqn:Dn; [|exact H].
+  intros H. destruct keep; [|now apply WFx_op_remove].
+  unfold op_remove. destruct (get_tree w ti) as [t|] eqn:Gt; [|exact (WFx_refl w H)].
+  destruct (did_of n (forest_of t)) as [d|] eqn:Dn; [|exact (WFx_refl w H)].
   assert (Wt := WFw_tree w ti t H Gt).
   set (V := if wc then filter (fun c => negb (Nat.eqb c n)) (idx_get d (idx t)) ++ [n] else [n]).
-  cbn [andb]. destruct (existsb (keep_collides_all t V) V) eqn:Col; [exact H|].
+  cbn [andb]. destruct (existsb (keep_collides_all t V) V) eqn:Col; [exact (WFx_refl w H)|].
   cbn [snd]. unfold put_tree.
   assert (Kn : In (n, d) (keys (forest_of t))).
   { unfold did_of in Dn. destruct (get_node n (forest_of t)) as [s|] eqn:Gn; [|discriminate]. cbn in Dn. injection Dn as <-.
@@ -239,5 +239,9 @@ Proof.
       now apply (idx_get_keys t u d Wt).
     - destruct Iu as [<-|[]]. assumption. }
   destruct (keep_fold V d V t (incl_refl V) Wt (Gall_init t V Wt (existsb_false_forall _ _ Col)) Hv) as (Wr & Ir).
-  apply (WFw_put w ti t); auto.
+  apply (WFx_put w ti t); auto.
 Qed.
+
+Theorem WFw_op_remove_full w ti n keep wc : WFw w -> WFw (snd (op_remove w ti n keep wc)).
+Proof. intros H0. exact (proj1 (WFx_op_remove_full w ti n keep wc H0)). Qed.
+
